@@ -431,7 +431,14 @@ class ConnectionState:
             func: _CommandFunc = getattr(self, func_name)
         except AttributeError:
             return ResponseNo(cmd.tag, cmd.command + b': Not Implemented')
-        response, selected = await func(cmd)
+        try:
+            response, selected = await func(cmd)
+        except BaseException:
+            # no fork follows a failed command: what the command set on the
+            # selection for its own answer must not outlive it
+            if self._selected is not None:
+                self._selected.hide_expunged = False
+            raise
         if selected is not None:
             self._selected, untagged = selected.fork(cmd)
             response.add_untagged(*untagged)
